@@ -26,7 +26,7 @@ func TestVerifC13(t *testing.T) {
 		Assumptions: []string{"the count is not required to be maximal, only to name an intact contiguous prefix", "race detector on"},
 		Units: func(tier vfTier, seed uint64) int {
 			if tier == vfThorough {
-				return 8 * 2 * 3 * 4 * 3
+				return 8 * 2 * 3 * 4 * 3 * 10
 			}
 			return 8 * 2 * 3
 		},
